@@ -3,6 +3,7 @@ package rules
 import (
 	"go/constant"
 	"go/token"
+	"go/types"
 	"strings"
 
 	"kmcheck/internal/km"
@@ -60,9 +61,56 @@ func checkC12(c *km.Ctx) {
 	th := c.MustFunc("R-C12-1", "cmd/keymasterd", "(*RuntimeState).idpOpenIDCTokenHandler")
 	ah := c.MustFunc("R-C12-4", "cmd/keymasterd", "(*RuntimeState).idpOpenIDCAuthorizationHandler")
 	uh := c.MustFunc("R-C12-4", "cmd/keymasterd", "(*RuntimeState).idpOpenIDCUserinfoHandler")
-	vf := c.MustFunc("R-C12-3", "cmd/keymasterd", "(*RuntimeState).idpOpenIDCValidCodeVerifier")
-	if th == nil || ah == nil || uh == nil || vf == nil {
+	if th == nil || ah == nil || uh == nil {
 		return
+	}
+	// the PKCE verifier: the module function the token endpoint hands the code to and that opens the code's
+	// protected data (whatever its name and result type)
+	var vf *ssa.Function
+	for _, ci := range km.CallsIn(th) {
+		g := km.StaticCallee(ci.Common())
+		if g == nil || g.Blocks == nil || !c.InModule(g) {
+			continue
+		}
+		takesCode := false
+		for _, q := range g.Params {
+			if km.NamedTypeOf(q.Type()) == typCode {
+				takesCode = true
+			}
+		}
+		opens := false
+		for _, c2 := range km.CallsIn(g) {
+			if km.CalleeFull(c2.Common()) == KMD+".decodeOpenData" {
+				opens = true
+			}
+		}
+		if takesCode && opens {
+			vf = g
+		}
+	}
+	if vf == nil {
+		r.AnchorLost("R-C12-3", "the PKCE verifier (a function called by the token endpoint with the code that opens its protected data)")
+		return
+	}
+	verifierParam, codeParam := checkPKCEVerifier(c, s, vf)
+	paramIdx := func(q *ssa.Parameter) int {
+		for i, x := range vf.Params {
+			if x == q {
+				return i
+			}
+		}
+		return -1
+	}
+	// isVerifierVerdict: v is "the verifier accepted" - its boolean result or its error result compared with nil
+	verifierCall := func(v ssa.Value) *ssa.Call {
+		v = km.Unwrap(v)
+		if b, ok := v.(*ssa.BinOp); ok && b.Op == token.EQL && km.IsNilConst(b.Y) {
+			v = km.Unwrap(b.X)
+		}
+		if cl, idx := callRes(v); cl != nil && idx == 0 && km.StaticCallee(cl.Common()) == vf {
+			return cl
+		}
+		return nil
 	}
 
 	// ---- the client id value of the token handler: phi/merge of BasicAuth#0, form client_id, unescaped
@@ -126,6 +174,21 @@ func checkC12(c *km.Ctx) {
 		return
 	}
 	_ = flagIf
+	pkceOperand := func(x *ssa.Call, facts []km.Fact) {
+		canPKCE := false
+		for _, f := range facts {
+			if f.Op == token.ILLEGAL && f.Pol {
+				if cl, idx := callRes(f.X); cl != nil && idx == 0 && strings.HasSuffix(km.CalleeFull(cl.Common()), "OpenIDConnectClientConfig).ClientCanDoPKCEAuth") {
+					canPKCE = true
+				}
+			}
+		}
+		a := km.CallArgs(x.Common())
+		vi, ci := paramIdx(verifierParam), paramIdx(codeParam)
+		verifierOK := vi >= 0 && vi < len(a) && leafAll(a[vi], func(x ssa.Value) bool { return isFormGetThrough(x, "code_verifier") }, 0)
+		codeOK := ci >= 0 && ci < len(a) && km.NamedTypeOf(a[ci].Type()) == typCode && isVerifiedCode(th, a[ci])
+		r.Add("R-C12-2", km.FuncName(th), "flag := PKCE verifier result", posOf(c, x), "only for a client that may use PKCE; verifier from the request; code is the verified code", sprintf("canPKCE=%v verifier-from-form=%v code-is-verified=%v", canPKCE, verifierOK, codeOK), canPKCE && verifierOK && codeOK)
+	}
 	seen := map[*ssa.Phi]bool{}
 	var walk func(p *ssa.Phi)
 	walk = func(p *ssa.Phi) {
@@ -141,23 +204,19 @@ func checkC12(c *km.Ctx) {
 			case *ssa.Const:
 				ok := x.Value != nil && x.Value.Kind() == constant.Bool && !constant.BoolVal(x.Value)
 				r.Add("R-C12-2", km.FuncName(th), "flag constant operand", posOf(c, p), "the only constant operand is the initial false", km.ValStr(x), ok)
+			case *ssa.BinOp:
+				vc := verifierCall(x)
+				if vc == nil {
+					r.Add("R-C12-2", km.FuncName(th), "flag operand (unrecognised)", posOf(c, p), "PKCE verifier or secret comparison", km.ValStr(e), false)
+					continue
+				}
+				pkceOperand(vc, append(controllingFacts(c, pred), controllingFacts(c, vc.Block())...))
 			case *ssa.Call:
 				name := km.CalleeFull(x.Common())
 				facts := append(controllingFacts(c, pred), controllingFacts(c, x.Block())...)
 				switch {
-				case name == RS+"idpOpenIDCValidCodeVerifier":
-					canPKCE := false
-					for _, f := range facts {
-						if f.Op == token.ILLEGAL && f.Pol {
-							if cl, idx := callRes(f.X); cl != nil && idx == 0 && strings.HasSuffix(km.CalleeFull(cl.Common()), "OpenIDConnectClientConfig).ClientCanDoPKCEAuth") {
-								canPKCE = true
-							}
-						}
-					}
-					a := km.CallArgs(x.Common()) // state, clientId, verifier, code
-					verifierOK := leafAll(a[2], func(x ssa.Value) bool { return isFormGetThrough(x, "code_verifier") }, 0)
-					codeOK := km.NamedTypeOf(a[3].Type()) == typCode && isVerifiedCode(th, a[3])
-					r.Add("R-C12-2", km.FuncName(th), "flag := PKCE verifier result", posOf(c, x), "only for a client that may use PKCE; verifier from the request; code is the verified code", sprintf("canPKCE=%v verifier-from-form=%v code-is-verified=%v", canPKCE, verifierOK, codeOK), canPKCE && verifierOK && codeOK)
+				case verifierCall(x) != nil:
+					pkceOperand(x, facts)
 				case strings.HasSuffix(name, "OpenIDConnectClientConfig).ValidClientSecret"):
 					nonEmpty := false
 					for _, f := range facts {
@@ -238,7 +297,6 @@ func checkC12(c *km.Ctx) {
 		r.AnchorLost("R-C12-1", "the two Serialize calls of idpOpenIDCTokenHandler")
 	}
 
-	checkPKCEVerifier(c, s, vf)
 	// codes and access tokens this server signs after unsealing must verify: the verifier list follows the keys
 	checkVerifierListFresh(c, s, "R-C12-1")
 
@@ -457,14 +515,17 @@ func isFormGetThrough(v ssa.Value, key string) bool {
 	return false
 }
 
-func checkPKCEVerifier(c *km.Ctx, s *km.Sem, vf *ssa.Function) {
+func checkPKCEVerifier(c *km.Ctx, s *km.Sem, vf *ssa.Function) (verifier, code *ssa.Parameter) {
 	r := c.R
-	if len(vf.Params) < 4 {
-		r.AnchorLost("R-C12-3", "parameters of idpOpenIDCValidCodeVerifier")
-		return
+	for _, q := range vf.Params {
+		if km.NamedTypeOf(q.Type()) == typCode {
+			code = q
+		}
 	}
-	verifier := vf.Params[2]
-	code := vf.Params[3]
+	if code == nil {
+		r.AnchorLost("R-C12-3", "code parameter of the PKCE verifier")
+		return nil, nil
+	}
 	// the challenge: field CodeChallenge of the struct unmarshalled from decodeOpenData(code.ProtectedData, code.JWTId, key(code.ProtectedDataKey))
 	challengeOK := func(v ssa.Value) bool {
 		base, fld, ok := km.FieldOfLoad(km.Unwrap(v))
@@ -508,60 +569,118 @@ func checkPKCEVerifier(c *km.Ctx, s *km.Sem, vf *ssa.Function) {
 		}
 		return good
 	}
+	isErr := vf.Signature.Results().Len() > 0 && types.Identical(vf.Signature.Results().At(0).Type(), types.Universe.Lookup("error").Type())
+	// methodsOf: what conjunction k says the challenge method is ("" when it says nothing)
+	methodOf := func(k km.Conj) (string, bool) {
+		for _, f := range k.List() {
+			if f.Op == token.EQL && mentionsField(f.X, "CodeChallengeMethod") {
+				if cs, ok := km.ConstString(f.Y); ok {
+					return cs, true
+				}
+			}
+		}
+		return "", false
+	}
 	n := 0
 	for _, rc := range s.RetCases(vf) {
 		v := km.Unwrap(rc.Results[0])
-		if cst, ok := v.(*ssa.Const); ok {
-			n++
+		n++
+		// refusing returns need no argument
+		if cst, ok := v.(*ssa.Const); ok && !isErr {
 			r.Add("R-C12-3", km.FuncName(vf), "constant result", posOf(c, rc.Ret), "constant results are false", km.ValStr(cst), km.ValStr(cst) == "false")
 			continue
 		}
-		b, ok := v.(*ssa.BinOp)
-		if !ok || b.Op != token.EQL {
-			n++
-			r.Add("R-C12-3", km.FuncName(vf), "computed result", posOf(c, rc.Ret), "an equality between the verifier (or its S256 transform) and the bound challenge", km.ValStr(v), false)
+		if isErr && km.Nilness(rc.Results[0]) > 0 {
+			r.Add("R-C12-3", km.FuncName(vf), "refusal", posOf(c, rc.Ret), "a non-nil error refuses", km.ValStr(v), true)
 			continue
 		}
-		n++
-		var other ssa.Value
-		switch {
-		case challengeOK(b.Y):
-			other = b.X
-		case challengeOK(b.X):
-			other = b.Y
-		}
-		method := ""
-		for _, f := range controllingFacts(c, rc.Ret.Block()) {
-			if f.Op == token.EQL && mentionsField(f.X, "CodeChallengeMethod") {
-				if cs, ok := km.ConstString(f.Y); ok {
-					method = "=" + cs
+		// an accepting return: every disjunct that can accept must contain the equality of the right kind
+		good := len(rc.State) > 0
+		desc := ""
+		for _, d := range rc.State {
+			k := d
+			if !isErr {
+				var can bool
+				k, can = s.TrueFacts(d, v)
+				if !can {
+					continue
+				}
+			} else if !km.IsNilConst(v) {
+				// an error handed on: a refusal where this path knows it to be non-nil, otherwise not an argument
+				// for acceptance
+				nonNil := false
+				for _, f := range d.List() {
+					if f.Op == token.NEQ && km.IsNilConst(f.Y) && km.Unwrap(f.X) == v {
+						nonNil = true
+					}
+				}
+				if nonNil {
+					continue
+				}
+				good = false
+				desc = "error of unknown origin returned: " + km.ValStr(v)
+				break
+			}
+			method, hasMethod := methodOf(k)
+			found := false
+			for _, f := range k.List() {
+				if f.Op != token.EQL {
+					continue
+				}
+				var other ssa.Value
+				switch {
+				case challengeOK(f.Y):
+					other = f.X
+				case challengeOK(f.X):
+					other = f.Y
+				default:
+					continue
+				}
+				o := km.Unwrap(other)
+				var q *ssa.Parameter
+				s256 := false
+				if pq, ok := o.(*ssa.Parameter); ok {
+					q = pq
+				} else {
+					for _, cand := range vf.Params {
+						if isS256Of(o, cand) {
+							q, s256 = cand, true
+						}
+					}
+				}
+				if q == nil {
+					desc = "other side is not the verifier or its S256 transform: " + km.ValStr(o)
+					continue
+				}
+				if verifier != nil && verifier != q {
+					desc = "two different parameters compared with the challenge"
+					continue
+				}
+				switch {
+				case !s256 && hasMethod && (method == "" || method == "plain"):
+					found, verifier = true, q
+					desc = "verifier == challenge under method=" + method
+				case s256 && hasMethod && method == "S256":
+					found, verifier = true, q
+					desc = "base64url(sha256(verifier)) == challenge under method=S256"
+				default:
+					desc = sprintf("comparison (s256=%v) under method=%q (known=%v)", s256, method, hasMethod)
 				}
 			}
-		}
-		good := false
-		desc := "challenge side not bound to the code"
-		if other != nil {
-			o := km.Unwrap(other)
-			switch {
-			case o == ssa.Value(verifier):
-				good = method == "=" || method == "=plain"
-				desc = "verifier == challenge under method" + method
-				// SSA lowers `case "", "plain"` to two tests; accept either
-				if !good && (method == "" || method == "=plain") {
-					good = rcUnderMethods(c, rc.Ret.Block(), []string{"", "plain"})
+			if !found {
+				good = false
+				if desc == "" {
+					desc = "no equality between the verifier and the challenge bound to the code on an accepting path"
 				}
-			case isS256Of(o, verifier):
-				good = method == "=S256"
-				desc = "base64url(sha256(verifier)) == challenge under method" + method
-			default:
-				desc = "other side is not the verifier or its S256 transform: " + km.ValStr(o)
+				break
 			}
 		}
-		r.Add("R-C12-3", km.FuncName(vf), "equality result", posOf(c, rc.Ret), "verifier==challenge for \"\"/plain; base64url(sha256(verifier))==challenge for S256; challenge decrypted from the same code", desc, good)
+		r.Add("R-C12-3", km.FuncName(vf), "accepting result", posOf(c, rc.Ret), "verifier==challenge for \"\"/plain; base64url(sha256(verifier))==challenge for S256; challenge decrypted from the same code", desc, good)
 	}
-	if n < 4 {
-		r.AnchorLost("R-C12-3", "returns of idpOpenIDCValidCodeVerifier")
+	if n < 3 || verifier == nil {
+		r.AnchorLost("R-C12-3", "accepting returns of the PKCE verifier")
 	}
+	return verifier, code
 }
 
 func allocHoldsParam(v ssa.Value, p *ssa.Parameter) bool {
